@@ -9,18 +9,29 @@
   Structure: the local invariant `LinOK` (+ `Forest`) is turned into the property text by
   `C05_lin_iff_conn`; `C05_walk_*` characterise the relabel walk; `C05_step_*` show that the
   accepted user actions re-establish the invariant bundle, `C05_frame_*` the frame clause.
+  Hypothesis `s.linOn = true` = "a tracking solution with lineage ids"; the bound
+  `∀ n l, linOf n = some l → l ≤ maxLin` is `BookOK.l_max`.
+
+  Not proved here (statements for the record):
+    C05_step_addNode / C05_step_deleteNode / C05_step_updateSeg :
+        same bundle, `(uX s args).2 = .ok recs → LinOK (uX s args).1` — the nested `uDeleteEdge`
+        calls chain exactly as in `C05_step_swap`; missing are effect lemmas for `pAddNode`,
+        `pDelNode`, `trackNeighbors` and the orphan loop of `uDeleteNode`.
+    C05_frame_swap : ¬ Conn s n n1 → ¬ Conn s n n2 → linOf' n = linOf n  (needs `Conn` transported
+        through the intermediate graphs)
+    C05_assign : Forest s → LinOK (assignLineages s)  (`components` = BFS closure with fuel)
 -/
-import FtProofs.TrackSteps
+import FtProofs.TrackLemmas
 open Ft Ft.St
 
 /-- equal lineage id ⇔ connected ignoring direction (from the local invariants) -/
 theorem C05_lin_iff_conn {s : St} (hF : s.Forest) (hL : s.LinOK) {a b : Node}
     (ha : a ∈ s.ids) (hb : b ∈ s.ids) : s.linOf a = s.linOf b ↔ s.Conn a b :=
-  lin_iff_conn hF hL ha hb
+  tk_lin_iff_conn hF hL ha hb
 
-example : exState.Forest ∧ exState.LinOK ∧ (3 : Node) ∈ exState.ids ∧ (4 : Node) ∈ exState.ids ∧
-    exState.linOf 3 = exState.linOf 4 ∧ exState.linOf 3 ≠ exState.linOf 6 :=
-  ⟨forestB_sound (by decide), linOKB_sound (by decide), by decide, by decide, by decide, by decide⟩
+example : tk_exState.Forest ∧ tk_exState.LinOK ∧ (3 : Node) ∈ tk_exState.ids ∧ (4 : Node) ∈ tk_exState.ids ∧
+    tk_exState.linOf 3 = tk_exState.linOf 4 ∧ tk_exState.linOf 3 ≠ tk_exState.linOf 6 :=
+  ⟨tk_forestB_sound (by decide), tk_linOKB_sound (by decide), by decide, by decide, by decide, by decide⟩
 #print axioms C05_lin_iff_conn
 
 /-- the walk visits exactly the descendants-or-self of `start`, each exactly once (the list of
@@ -30,13 +41,13 @@ theorem C05_walk_visits_once {s : St} (hF : s.Forest) {start : Node} (hs : start
     let visited := (walkLevels oldT newT nl true (s.nodes.length + 1)
       { s := s, flag := true, tNodes := [], lNodes := [], next := [start] }).lNodes
     visited.Nodup ∧ ∀ n, n ∈ visited ↔ s.Anc start n := by
-  simp only [walkLevels_lNodes]
-  exact bfs_walk hF hs
+  simp only [tk_walkLevels_lNodes]
+  exact tk_bfs_walk hF hs
 
-example : exState.Forest ∧ (2 : Node) ∈ exState.ids ∧
-    (walkLevels 1 9 (some 7) true (exState.nodes.length + 1)
-      { s := exState, flag := true, tNodes := [], lNodes := [], next := [2] }).lNodes = [2, 3, 4] :=
-  ⟨forestB_sound (by decide), by decide, by decide⟩
+example : tk_exState.Forest ∧ (2 : Node) ∈ tk_exState.ids ∧
+    (walkLevels 1 9 (some 7) true (tk_exState.nodes.length + 1)
+      { s := tk_exState, flag := true, tNodes := [], lNodes := [], next := [2] }).lNodes = [2, 3, 4] :=
+  ⟨tk_forestB_sound (by decide), by decide, by decide⟩
 #print axioms C05_walk_visits_once
 
 /-- in a forest, `walk s start _ _ _ (some l)` (lineage feature on) writes lineage `l` on exactly
@@ -47,14 +58,14 @@ theorem C05_walk_subtree {s : St} (hF : s.Forest) {start : Node} (hs : start ∈
     (∀ n, s.Anc start n → s'.linOf n = some l) ∧
     (∀ n, ¬ s.Anc start n → s'.linOf n = s.linOf n) ∧
     s'.ids = s.ids ∧ s'.edges = s.edges ∧ (∀ n, s'.timeOf n = s.timeOf n) := by
-  have h := walk_lin hF hs hon oldT newT oldL l
-  have g := walk_sameG s start oldT newT oldL (some l)
+  have h := tk_walk_lin hF hs hon oldT newT oldL l
+  have g := tk_walk_sameG s start oldT newT oldL (some l)
   exact ⟨h.1, h.2.1, g.ids, g.edges, g.time⟩
 
-example : exState.Forest ∧ (2 : Node) ∈ exState.ids ∧ exState.linOn = true ∧
-    (exState.walk 2 1 9 (some 1) (some 7)).linOf 4 = some 7 ∧
-    (exState.walk 2 1 9 (some 1) (some 7)).linOf 1 = some 1 :=
-  ⟨forestB_sound (by decide), by decide, rfl, by decide, by decide⟩
+example : tk_exState.Forest ∧ (2 : Node) ∈ tk_exState.ids ∧ tk_exState.linOn = true ∧
+    (tk_exState.walk 2 1 9 (some 1) (some 7)).linOf 4 = some 7 ∧
+    (tk_exState.walk 2 1 9 (some 1) (some 7)).linOf 1 = some 1 :=
+  ⟨tk_forestB_sound (by decide), by decide, rfl, by decide, by decide⟩
 #print axioms C05_walk_subtree
 
 /-- accepted `uDeleteEdge` re-establishes the invariant bundle (forest, `LinOK`, lineage maximum
@@ -64,14 +75,14 @@ theorem C05_step_deleteEdge {s : St} (hF : s.Forest) (hL : s.LinOK) (hon : s.lin
     (hok : (s.uDeleteEdge e).2 = .ok recs) :
     let s' := (s.uDeleteEdge e).1
     s'.LinOK ∧ s'.Forest ∧ s'.linOn = true ∧ (∀ n l, s'.linOf n = some l → l ≤ s'.maxLin) := by
-  have h := (uDeleteEdge_linInv ⟨hF, hL, hon, hmax⟩ hok).1
+  have h := (tk_uDeleteEdge_linInv ⟨hF, hL, hon, hmax⟩ hok).1
   exact ⟨h.linOK, h.forest, h.on, h.max⟩
 
 -- both branches: a non-division edge (1,2) and a division edge (2,3)
-example : exState.LinInv ∧ (∃ recs, (exState.uDeleteEdge (1, 2)).2 = .ok recs) ∧
-    (∃ recs, (exState.uDeleteEdge (2, 3)).2 = .ok recs) ∧
-    (exState.uDeleteEdge (2, 3)).1.linOf 3 = some 3 :=
-  ⟨linInv_of_check (by decide) (by decide) rfl (by decide), ⟨_, rfl⟩, ⟨_, rfl⟩, by decide⟩
+example : tk_exState.tk_LinInv ∧ (∃ recs, (tk_exState.uDeleteEdge (1, 2)).2 = .ok recs) ∧
+    (∃ recs, (tk_exState.uDeleteEdge (2, 3)).2 = .ok recs) ∧
+    (tk_exState.uDeleteEdge (2, 3)).1.linOf 3 = some 3 :=
+  ⟨tk_linInv_of_check (by decide) (by decide) rfl (by decide), ⟨_, rfl⟩, ⟨_, rfl⟩, by decide⟩
 #print axioms C05_step_deleteEdge
 
 /-- frame clause for `uDeleteEdge`: a node not connected to the edge's target keeps its lineage -/
@@ -79,14 +90,14 @@ theorem C05_frame_deleteEdge {s : St} (hF : s.Forest) (hL : s.LinOK) (hon : s.li
     (hmax : ∀ n l, s.linOf n = some l → l ≤ s.maxLin) {e : Edge} {recs}
     (hok : (s.uDeleteEdge e).2 = .ok recs) (n : Node) (hn : ¬ s.Conn n e.2) :
     (s.uDeleteEdge e).1.linOf n = s.linOf n := by
-  have h := uDeleteEdge_eff ⟨hF, hL, hon, hmax⟩ hok
+  have h := tk_uDeleteEdge_eff ⟨hF, hL, hon, hmax⟩ hok
   apply h.lin_out
   intro hanc
   exact hn ((hanc.conn (hF.dst_mem _ h.mem)).symm hF)
 
-example : ¬ exState.Conn 5 3 := by
+example : ¬ tk_exState.Conn 5 3 := by
   intro h
-  have := (C05_lin_iff_conn (forestB_sound (by decide)) (linOKB_sound (by decide))
+  have := (C05_lin_iff_conn (tk_forestB_sound (by decide)) (tk_linOKB_sound (by decide))
     (by decide) (by decide)).2 h
   revert this; decide
 #print axioms C05_frame_deleteEdge
@@ -97,16 +108,16 @@ theorem C05_step_addEdge {s : St} (hF : s.Forest) (hL : s.LinOK) (hon : s.linOn 
     (hok : (s.uAddEdge e force).2 = .ok recs) :
     let s' := (s.uAddEdge e force).1
     s'.LinOK ∧ s'.Forest ∧ s'.linOn = true ∧ (∀ n l, s'.linOf n = some l → l ≤ s'.maxLin) := by
-  have h := (uAddEdge_linInv ⟨hF, hL, hon, hmax⟩ hok).1
+  have h := (tk_uAddEdge_linInv ⟨hF, hL, hon, hmax⟩ hok).1
   exact ⟨h.linOK, h.forest, h.on, h.max⟩
 
 -- forced (6 has parent 5; 4 is a leaf), creating a division (source 1 has one child), plain
-example : exState.LinInv ∧ (∃ recs, (exState.uAddEdge (4, 6) true).2 = .ok recs) ∧
-    (∃ recs, (exState.uAddEdge (1, 5) false).2 = .error recs) ∧
-    (∃ recs, ((exState.uDeleteEdge (5, 6)).1.uAddEdge (1, 6) false).2 = .ok recs) ∧
-    (exState.uAddEdge (4, 6) true).1.linOf 6 = some 1 ∧
-    (exState.uAddEdge (4, 6) true).1.linOf 5 = some 2 :=
-  ⟨linInv_of_check (by decide) (by decide) rfl (by decide), ⟨_, rfl⟩, ⟨_, rfl⟩, ⟨_, rfl⟩,
+example : tk_exState.tk_LinInv ∧ (∃ recs, (tk_exState.uAddEdge (4, 6) true).2 = .ok recs) ∧
+    (∃ recs, (tk_exState.uAddEdge (1, 5) false).2 = .error recs) ∧
+    (∃ recs, ((tk_exState.uDeleteEdge (5, 6)).1.uAddEdge (1, 6) false).2 = .ok recs) ∧
+    (tk_exState.uAddEdge (4, 6) true).1.linOf 6 = some 1 ∧
+    (tk_exState.uAddEdge (4, 6) true).1.linOf 5 = some 2 :=
+  ⟨tk_linInv_of_check (by decide) (by decide) rfl (by decide), ⟨_, rfl⟩, ⟨_, rfl⟩, ⟨_, rfl⟩,
    by decide, by decide⟩
 #print axioms C05_step_addEdge
 
@@ -115,8 +126,23 @@ theorem C05_frame_addEdge {s : St} (hF : s.Forest) (hL : s.LinOK) (hon : s.linOn
     (hmax : ∀ n l, s.linOf n = some l → l ≤ s.maxLin) {e : Edge} {force : Bool} {recs}
     (hok : (s.uAddEdge e force).2 = .ok recs) (n : Node) (hn : ¬ s.Conn n e.2) :
     (s.uAddEdge e force).1.linOf n = s.linOf n := by
-  have h := (uAddEdge_linInv ⟨hF, hL, hon, hmax⟩ hok).2
+  have h := (tk_uAddEdge_linInv ⟨hF, hL, hon, hmax⟩ hok).2
   apply h
   intro hanc
-  exact hn ((hanc.conn (uAddEdge_ok_nodes hok).2.1).symm hF)
+  exact hn ((hanc.conn (tk_uAddEdge_ok_nodes hok).2.1).symm hF)
 #print axioms C05_frame_addEdge
+
+/-- accepted `uSwap` (two `uDeleteEdge`, two `uAddEdge`) re-establishes the invariant bundle: the
+    bundle chains through nested user actions -/
+theorem C05_step_swap {s : St} (hF : s.Forest) (hL : s.LinOK) (hon : s.linOn = true)
+    (hmax : ∀ n l, s.linOf n = some l → l ≤ s.maxLin) {n1 n2 : Node} {recs}
+    (hok : (s.uSwap n1 n2).2 = .ok recs) :
+    let s' := (s.uSwap n1 n2).1
+    s'.LinOK ∧ s'.Forest ∧ s'.linOn = true ∧ (∀ n l, s'.linOf n = some l → l ≤ s'.maxLin) := by
+  have h := tk_uSwap_linInv ⟨hF, hL, hon, hmax⟩ hok
+  exact ⟨h.linOK, h.forest, h.on, h.max⟩
+
+example : tk_exState.tk_LinInv ∧ (∃ recs, (tk_exState.uSwap 3 6).2 = .ok recs) ∧
+    (tk_exState.uSwap 3 6).1.linOf 6 = some 1 ∧ (tk_exState.uSwap 3 6).1.linOf 3 = (tk_exState.uSwap 3 6).1.linOf 5 :=
+  ⟨tk_linInv_of_check (by decide) (by decide) rfl (by decide), ⟨_, rfl⟩, by decide, by decide⟩
+#print axioms C05_step_swap
